@@ -377,6 +377,12 @@ def pstr_utf8_window(F, R, prefix):
             return int(e["lit"]["int"])
         if e["k"] == "Path" and str(e.get("val", "")).isdigit():
             return int(e["val"])       # a named constant: the driver records its evaluated value
+        if e["k"] == "Binary" and e.get("op") in ("Add", "Sub"):
+            l, r = value(e["a"]), value(e["b"])    # MAX_UTF8_LEN - 1
+            if l is not None and r is not None:
+                return l + r if e["op"] == "Add" else l - r
+        if e["k"] in ("Paren", "Cast") and "a" in e:
+            return value(e["a"])
         return None
     backs = [v for x in walk(ch_["body"]) if x["k"] == "MethodCall" and x["name"] == "saturating_sub" for v in [value(a) for a in x["args"]] if v is not None]
     fwds = []
@@ -384,7 +390,21 @@ def pstr_utf8_window(F, R, prefix):
         if x["k"] == "Struct" and (res_name(x) or "").endswith("ops::Range"):
             end = dict(x["fields"]).get("end")
             if end is not None:
-                fwds += [v for y in walk(end) if y["k"] == "Binary" and y["op"] == "Add" for v in [value(y["b"])] if v is not None]
+                def offset(t):
+                    """constant added to a non-constant base in t: pos + 4, (pos + MAX) - 1, pos + (MAX - 1)"""
+                    if t["k"] == "Binary" and t["op"] in ("Add", "Sub"):
+                        r = value(t["b"])
+                        if r is not None:
+                            inner = offset(t["a"])
+                            base = inner if inner is not None else 0
+                            return base + r if t["op"] == "Add" else base - r
+                    if t["k"] == "MethodCall" and t["name"] == "min" and "recv" in t:
+                        return offset(t["recv"])
+                    return None
+                cands = [offset(y) for y in walk(end) if y["k"] == "Binary" and y["op"] in ("Add", "Sub")]
+                cands = [c for c in cands if c is not None]
+                if cands:
+                    fwds.append(max(cands, key=abs) if len(cands) == 1 else cands[0])
     if not backs or not fwds:
         raise AnchorLost("compare_pstr_slices: decoding window not recognised (backs %s, forwards %s)" % (backs, fwds))
     R.ob("%s:pstr-compare:utf8-window" % prefix, min(backs) >= 3 and min(fwds) >= 4,
